@@ -122,4 +122,16 @@ def run(ctx):
     for v in ctx.violations[nv:]:
         v["rule"] = "C18.V3(" + v["rule"] + ")"
         v["key"] = "C18.V3|" + v["key"]
-    ctx.assume("A-HASH: equal 64-bit hash implies equal position")
+    # the key the walk trusts is taken with no move pending at every table access of the entry point and of the node function
+    for path in ("search::get_best_move_entry", "search::get_best_move_score"):
+        p06.depth_at_table_sites(ctx, F, F.fn(path), "C18.V3")
+    # structural part of A-HASH: the key covers every feature of the position (whole state byte, square x piece, side)
+    from . import p04
+    before, nv = len(ctx.instances), len(ctx.violations)
+    p04.rule_k4(ctx, F)
+    for i in ctx.instances[before:]:
+        i["rule"] = "C18.V4(" + i["rule"] + ")"
+    for v in ctx.violations[nv:]:
+        v["rule"] = "C18.V4(" + v["rule"] + ")"
+        v["key"] = "C18.V4|" + v["key"]
+    ctx.assume("A-HASH: equal 64-bit hash implies equal position (only its structural part - every feature is keyed - is checked)")
